@@ -144,6 +144,22 @@ def build(rng, cname, ctext, ctx, nl, with_multiline_string, with_filters):
         lines.append("  " + stmt)
         exp = len(lines)
         lines.append("}")
+    elif ctx == "recursion":
+        # runaway recursion: the failing operation is the innermost call, written on its own line inside the function
+        shape = rng.randrange(5)
+        head, call, tail = [("fn rz() {", "rz();", "}"), ("fn rz() {", "rz()", "}"), ("fn rz(n) {", "rz(n + 1);", "}"),
+                            ("fn rz(n) {", "1 + rz(n + 1)", "}"), ("let rz = fn() {", "rz();", "};")][shape]
+        lines.append(head)
+        for _ in range(rng.randint(0, 3)):
+            lines.append("  # inside")
+        if shape in (2, 3) and rng.random() < 0.5:
+            lines.append("  let keep = n;")
+        lines.append("  " + call)
+        exp = len(lines)
+        lines.append(tail)
+        for _ in range(rng.randint(0, 3)):
+            lines.append("# gap")
+        lines.append("rz(0);" if shape in (2, 3) else "rz();")
     else:
         raise ValueError(ctx)
     for _ in range(rng.randint(0, 3)):
@@ -178,6 +194,11 @@ def run(chk):
                     for _ in range(reps):
                         text, exp = build(rng, cname, ctext, ctx, nl, ms, with_filters=False)
                         jobs.append((cname, ctx, nl, ms, text, exp, ctext))
+    for nl in ("\n", "\r\n"):
+        for ms in (False, True):
+            for _ in range(reps * 4):
+                text, exp = build(rng, "stack-overflow", "rz()", "recursion", nl, ms, with_filters=False)
+                jobs.append(("stack-overflow", "recursion", nl, ms, text, exp, "rz()"))
     cases = [Case("l%d" % i, j[4], {"steps": 100000}) for i, j in enumerate(jobs)]
     res = core.run_cases(cases)
     for i, (cname, ctx, nl, ms, text, exp, ctext) in enumerate(jobs):
